@@ -95,7 +95,7 @@ SeqItems(i) == LET ks == SeqOfIndex(NVariants, i - 1, 1) IN [j \in 1..Len(ks) |-
 
 -----------------------------------------------------------------------------
 (* field variants inside each kind of container *)
-NFieldVariants == 11
+NFieldVariants == 12
 FV(k, j, idx) ==   \* j-th field of the container; idx used by messages
   LET nm == Nm("f", j) IN
   CASE k = 1 -> PlainF(nm, P("int32"), idx)
@@ -108,6 +108,7 @@ FV(k, j, idx) ==   \* j-th field of the container; idx used by messages
     [] k = 8 -> Fd(nm, P("float64"), idx, "", BlockDoc(" first paragraph\n\n   second paragraph after an empty line\n "), <<>>, "")
     [] k = 9 -> PlainF(nm, P("int16"), idx) @@ ("idxlit" :> ("0" \o ToString(idx)))   \* message indices are decimal: 010 is ten
     [] k = 10 -> Fd(nm, P("uint16"), idx, "first the attribute", LineDoc(" then the doc"), <<>>, "") @@ ("attrfirst" :> TRUE)
+    [] k = 12 -> Fd(nm, P("int64"), idx, EmptyDep, NoDoc, <<>>, "")          \* [deprecated("")]: deprecated, with an empty reason
     [] k = 11 -> Fd(nm, P("string"), idx, "above a tag", NoDoc, << Tag("db:\"" \o nm \o "\"", "db", nm, FALSE) >>, "") @@ ("attrfirst" :> TRUE)
 
 MaxItems == IF Tier = "thorough" THEN 3 ELSE 2
